@@ -70,6 +70,7 @@ type sResult struct { // one benchmark line
 }
 
 type sSet struct {
+	sparseKeys bool // numerator results carry no denominator hash, baseline results no numerator hash/stamp
 	points  []sPoint
 	exps    []time.Time // experiment instants (distinct)
 	expPts  [][]int     // experiment -> covered points
@@ -195,6 +196,7 @@ func sGenSet(T *sim.Tape, allowNoDen bool) *sSet {
 		sp := sSpellings(s.points[p].at)
 		s.pspell[p] = sp[spellIdx(len(sp))]
 	}
+	s.sparseKeys = T.Intn(4, "sparse-keys") == 0
 	baseOnly := -1
 	if nb >= 2 && T.Intn(6, "baseline-only-benchmark") == 0 {
 		baseOnly = 1 + T.Intn(nb-1, "which-baseline-only")
@@ -307,6 +309,25 @@ func sGenSet(T *sim.Tape, allowNoDen bool) *sSet {
 }
 
 func (s *sSet) cfgFor(e, p int, tab [2]string, role string, T *sim.Tape) [][2]string {
+	all := s.cfgAll(e, p, tab, role, T)
+	if !s.sparseKeys {
+		return all
+	}
+	// each toolchain's results carry only the keys that concern them
+	var out [][2]string
+	for _, kv := range all {
+		if role == "Tip" && kv[0] == "denominator_hash" {
+			continue
+		}
+		if role == "Base" && (kv[0] == "numerator_hash" || kv[0] == "numerator_stamp") {
+			continue
+		}
+		out = append(out, kv)
+	}
+	return out
+}
+
+func (s *sSet) cfgAll(e, p int, tab [2]string, role string, T *sim.Tape) [][2]string {
 	return [][2]string{
 		{"goarch", tab[0]}, {"goos", tab[1]},
 		{"runstamp", s.spell[e]},
